@@ -93,6 +93,16 @@ func Mine(k int) bool {
 	return k%n == i
 }
 
+// DeadlineS is the internal time budget (seconds) a harness should respect; on
+// reaching it the harness stops enumerating, reports exhaustive=false and exits 0.
+func DeadlineS() int {
+	n, err := strconv.Atoi(os.Getenv("VERIF_DEADLINE_S"))
+	if err != nil || n <= 0 {
+		return 3600
+	}
+	return n
+}
+
 // ReplayPath is non-empty when the harness is asked to re-execute one artefact.
 func ReplayPath() string { return os.Getenv("VERIF_REPLAY") }
 
